@@ -26,7 +26,7 @@ PROP = dict(
               'Fit.C14.C14_conservation_no_file_id', 'Fit.C14.C14_prefix_order', 'Fit.C14.C14_sort_stable',
               'Fit.C14.C14_sort_unique', 'Fit.C14.C14_timestampless_first', 'Fit.C14.C14_sorted_stable_partial',
               'Fit.C14.C14_sorted_suffix', 'Fit.C14.C14_KF2_witness'],
-    families=[dict(name='filedef', prop=True)],
+    families=[dict(name='filedef', prop=True), dict(name='listener', spec=True)],
     trusted_base=STD_TRUST + [
         "file-type tables (slot kinds, emission order, sort start, candidate-field modes) are regenerated on every run by black-box probing of filedef.PredefinedFileSet() with tagged messages",
     ],
